@@ -353,6 +353,13 @@ def check(ctx):
                           file=lx.rel if "lx" in dir() else "pycparser/c_lexer.py", function="CLexer.input")
     ctx.require_instances("R-C09.7", 5)
     ppline_number_language(ctx, "R-C09.8")
+    # "reporting - never silently skipping - characters it cannot tokenise": an identifier rule that swallows characters outside C's identifier
+    # alphabet (plus the documented '$'), or a layout arm that skips non-white-space, hides them; decided by the language comparison of C10 and the
+    # white-space rule of C01
+    from . import share
+    share.borrow(ctx, "C10", ("R-C10.1",), "R-C09.5", keep=lambda f: f.key == "upper:ID", count=1)
+    from . import c01 as _c01
+    _c01.white_space(ctx, "R-C09.5", only_nonspace=True)
     ctx.require_instances("R-C09.1", 45)
     ctx.require_instances("R-C09.2", 60)
     ctx.require_instances("R-C09.5", 8)
